@@ -121,7 +121,7 @@ def handle : Handler
     let fac ← f.toNat?
     let cp ← cap.toNat?
     let calls ← rest.mapM parseCall
-    let r := runF cp calls (State.init (UInt8.ofNat ic) fac)
+    let r := runSink cp calls (State.init (UInt8.ofNat ic) fac)
     let obs := r.2.map obsStr
     pure (String.intercalate " " ([toHex r.1.out] ++ obs ++ [stStr r.1]))
   | _ => none
